@@ -47,8 +47,12 @@ OPNAME = {"n": "new", "e": "enqueue", "s": "send", "a": "ack", "p": "pop_mtu_pro
           "c": "calc_pipe"}
 
 
-def required(prefixes):
-    """The rules / markers a caller that asked for `prefixes` should require to have been exercised."""
+def required(prefixes, r=None):
+    """The rules / markers a caller that asked for `prefixes` should require to have been exercised (pass them to
+    Result.finish as required_cov).  With `r`: nothing once r holds violations - a build that panics in the first
+    calls exercises little, and that must come out as a violation, not as a vacuous run."""
+    if r is not None and r.violations:
+        return []
     return [x for x in RULES + MARKERS if any(x.startswith(p) for p in prefixes)]
 
 
@@ -279,7 +283,8 @@ def _compute(tier, seed):
     cov["Segs.ObsAgrees"] = len(cases)
 
     # cases whose answer differs: SegmentsTrace names the broken clauses (the shortest ones of every kind of call;
-    # one more enqueue is appended, as the replay does, so that a wrong hidden offset shows)
+    # one more enqueue is appended, as the replay does, so that a wrong hidden offset shows - unless that would
+    # break the dispatcher's discipline)
     judged = 0
     if differing:
         by_kind = {}
@@ -288,7 +293,10 @@ def _compute(tier, seed):
         picked = []
         for k in sorted(by_kind):
             picked += sorted(by_kind[k], key=lambda i: (len(chain_of(cases, i)), i))[:6]
-        scripts = [script_of_chain(chain_of(cases, i) + [["e", 1, 0]]) for i in picked]
+        def may_enqueue(i):      # the expected state after case i has no outstanding probe at its end (Key codes)
+            k = keys[answer[i][1]]
+            return len(k) == 3 or not (k[-1] >> 2 & 1 and not k[-1] >> 3 & 1)
+        scripts = [script_of_chain(chain_of(cases, i) + ([["e", 1, 0]] if may_enqueue(i) else [])) for i in picked]
         v, starts = run_scripts(scripts, f"diff_{tier}_{seed}")
         judged = len(scripts)
         traces += len(scripts)
@@ -422,7 +430,7 @@ def run(tier, seed):
     r.exhaustive = True
     # a rule that was never exercised makes a HELD verdict vacuous; a run that dies early (panic in the first calls)
     # exercises little and is a violation, not a vacuous pass
-    return r.finish(rule_text=RULE_TEXT, required_cov=[] if r.violations else RULES + MARKERS)
+    return r.finish(rule_text=RULE_TEXT, required_cov=required(ALL_PREFIXES, r))
 
 
 def replay(path):
